@@ -227,6 +227,22 @@ def reindex_database(
             session.repo.add_file(zorg_page)
             session.commit()
 
+    if not cmd.paths:
+        # A plain reindex covers the whole zettel directory, so any indexed
+        # file that no longer exists there (i.e. it was deleted or renamed)
+        # needs to be dropped from the DB.
+        for zorg_page_name in session.repo.get_file_names():
+            if zorg_page_name not in file_to_hash:
+                num_of_updates += 1
+                c.zprint(
+                    "REMOVING DELETED FILE",
+                    zorg_page_name,
+                    fg_color=Color.BLACK,
+                    bg_color=Color.YELLOW,
+                )
+                session.repo.remove_file_by_name(zorg_page_name)
+                session.commit()
+
     if num_of_updates == 0:
         c.zprint("NO ZORG FILES HAVE BEEN MODIFIED")
 
